@@ -254,6 +254,11 @@ impl DB {
         Some((before, guard.version_set.get_curr_wal_number(), guard.curr_wal_file_number))
     }
 
+    /// Verification hook: is a rotated memtable still waiting for its flush?
+    pub fn has_immutable_memtable_for_verif(&self) -> bool {
+        self.guarded_fields.lock().maybe_immutable_memtable.is_some()
+    }
+
     /// Verification hook: number of level-0 files of the current version.
     pub fn num_level_zero_files_for_verif(&self) -> usize {
         self.guarded_fields.lock().version_set.num_files_at_level(0)
